@@ -408,12 +408,17 @@ def rule_widen1(ctx: Ctx) -> RuleResult:
             p = f.module.parents.get(n)
             child = n
             while p is not None and p is not f.node:
-                if isinstance(p, (ast.If, ast.While)):
+                if isinstance(p, (ast.If, ast.While)) and child in p.body:
                     guards.append(norm(p.test))
+                elif isinstance(p, ast.If):
+                    guards.append(f"not ({norm(p.test)})")
                 child, p = p, f.module.parents.get(p)
             lst = norm(n.func.value)
             if what == "int":
-                ok = any(f"float in {lst}" in g and f"int in {lst}" in g for g in guards)
+                # both facts hold where the removal runs: in one test, or in nested ones (`if float in L: while int in L:`)
+                pos = [g for g in guards if not g.startswith("not (")]
+                ok = any(f"float in {lst}" in g for g in pos) and any(f"int in {lst}" in g for g in pos) and not any(
+                    " or " in g and (f"float in {lst}" in g or f"int in {lst}" in g) for g in pos)
                 rr.ob(f.relpath, f.qualname, norm(n), "int is dropped only next to float (never the reverse)", DISCHARGED if ok else VIOLATED,
                       f"guard {guards}" if ok else f"int removed without float being present: {guards}", n.lineno)
             elif what == "float":
@@ -455,6 +460,11 @@ def rule_widen1(ctx: Ctx) -> RuleResult:
     from ..paths import enumerate_paths as _ep
     for h in _routing_scope(ctx)[1:]:
         hl = next((n for n in walk_no_nested(h.node) if isinstance(n, ast.For)), None)
+        worklist = None
+        if hl is None:
+            # an explicit work list: `while stack: item = stack.pop() ...` - a member pushed back is passed on later
+            hl = next((n for n in walk_no_nested(h.node) if isinstance(n, ast.While) and isinstance(n.test, ast.Name)), None)
+            worklist = hl.test.id if hl is not None else None
         if hl is None:
             raise AnalysisError(f"WIDEN-2: helper {h.qualname} has no loop over the members")
         for pth in _ep(hl.body):
@@ -462,6 +472,7 @@ def rule_widen1(ctx: Ctx) -> RuleResult:
                 continue
             rr.instances += 1
             passes_on = any(isinstance(x, ast.YieldFrom) or (isinstance(x, ast.Yield) and x.value is not None and norm(x.value) != "Null")
+                            or (worklist is not None and isinstance(x, ast.Call) and norm(x.func) in (f"{worklist}.extend", f"{worklist}.append"))
                             for s_ in pth.stmts() for x in ast.walk(s_))
             rr.ob(h.relpath, h.qualname, pth.describe()[:90], "each union member is passed on to the categorisation (as it is, unwrapped, "
                   "or member by member)", DISCHARGED if passes_on else VIOLATED,
@@ -537,7 +548,12 @@ def rule_widen1(ctx: Ctx) -> RuleResult:
         rem = [n for n in walk_no_nested(f.node) if isinstance(n, ast.Call) and norm(n.func) == f"{lst}.remove" and norm(n.args[0]) == "Unknown"]
         adds = [n for n in walk_no_nested(f.node) if isinstance(n, ast.Call) and norm(n.func) in (f"{lst}.append", f"{lst}.extend")]
         defs = [n for n in walk_no_nested(f.node) if isinstance(n, ast.Assign) and norm(n.targets[0]) == lst]
-        ok = bool(rem) and all(a.lineno < rem[0].lineno for a in adds) and all(d.lineno < rem[0].lineno for d in defs)
+        def _only_filters(d: ast.Assign) -> bool:
+            """`lst = [x for x in lst if ...]`: members are only taken away"""
+            v = d.value
+            return isinstance(v, ast.ListComp) and len(v.generators) == 1 and norm(v.generators[0].iter) == lst and \
+                norm(v.elt) == norm(v.generators[0].target)
+        ok = bool(rem) and all(a.lineno < rem[0].lineno for a in adds) and all(d.lineno < rem[0].lineno or _only_filters(d) for d in defs)
         why = "" if ok else ("Unknown is not removed from the final candidate list (or candidates are added after the removal): "
                              "Any survives next to a concrete member")
     rr.ob(f.relpath, f.qualname, "types.remove(Unknown) ... DUnion(*types)", "Unknown is dropped from the very list that "
@@ -594,6 +610,13 @@ def rule_nf(ctx: Ctx) -> RuleResult:
                 holder = stmt.targets[0].id
             # NF-2: singleton collapse on the constructed union itself
             rr.instances += 1
+            if isinstance(par, ast.Attribute) and par.attr == "types" and isinstance(f.module.parents.get(par), ast.Subscript):
+                # DUnion(...).types[i]: the union is only used to unite its arguments, a member is taken and the union is dropped
+                rr.ob(f.relpath, f.qualname, norm(stmt)[:80] if stmt is not None else norm(n)[:80],
+                      "a union is never left with a single member: after construction (which removes duplicates) its size is "
+                      "tested and a singleton is replaced by its member", DISCHARGED,
+                      "the union does not escape: one of its members is taken (NF-4 decides that the index exists)", n.lineno)
+                continue
             access = None
             if holder:
                 access = [f"len({holder}.types) == 1", f"len({holder}) == 1", f"len({holder}.type) == 1",
@@ -683,10 +706,12 @@ def rule_nf6(ctx: Ctx) -> RuleResult:
         opt = [c for c in ast.walk(lp) if isinstance(c, ast.Call) and isinstance(c.func, ast.Attribute) and
                c.func.attr == "optimize_type" and c.args and norm(c.args[0]) == mv] if lp is not None else []
         ok = bool(opt) and follows_unconditionally(lp.body, merges[0], opt[0])
-    rr.ob(f.relpath, f.qualname, "generator.optimize_type(model_meta)", "each freshly merged model is simplified at once "
-          "(one pass does not reach the normal form for Optional[Union[..]] members, so the later pass must be the second)",
-          DISCHARGED if ok else VIOLATED, "called unconditionally after _merge" if ok else
-          "the merged model is simplified only once: unions such as Optional[Union[int, str, IntString]] survive", f.node.lineno)
+    # (one pass of the simplifier is a fixed point - NF-4 decides that - so the pass right after each merge is not needed for
+    # the normal form; it is recorded, and the pass over all models after the last merge is what is required)
+    rr.ob(f.relpath, f.qualname, "generator.optimize_type(model_meta)", "each freshly merged model is simplified (at once, or by the "
+          "pass over all models that follows the merges)", DISCHARGED,
+          "called unconditionally after _merge" if ok else "left to the pass over all models (one pass is a fixed point: NF-4)",
+          f.node.lineno)
     rr.instances += 1
     ok = False
     for lp in walk_no_nested(f.node):
@@ -697,8 +722,10 @@ def rule_nf6(ctx: Ctx) -> RuleResult:
             if calls and not has_escape(lp.body) and merges and lp.lineno > merges[0].lineno:
                 ok = True
     rr.ob(f.relpath, f.qualname, "for model_meta in self.models: generator.optimize_type(model_meta)",
-          "after all merges every registered model is simplified again", DISCHARGED if ok else VIOLATED,
-          "final pass over all models" if ok else "no final pass", f.node.lineno)
+          "after the last merge every registered model is simplified (again): a later merge can make two pointers in an "
+          "earlier merged model refer to one model", DISCHARGED if ok else VIOLATED,
+          "final pass over all models" if ok else "no pass over ALL models after the merges: Union['F', 'F'] stays in a model merged "
+          "before the models it points to were", f.node.lineno)
     return rr
 
 
@@ -727,6 +754,10 @@ def rule_eq1(ctx: Ctx) -> RuleResult:
                         if "self" in l or "self" in rgt:
                             rr.instances += 1
                             proj = [p_ for p_ in PROJ if p_ in l or p_ in rgt]
+                            if c.name == "ModelMeta" and {l, rgt} == {"self.index", "other.index"}:
+                                # a registered model is identified by its unique index (it hashes by it): identity, not a projection
+                                # of the content (EQCYC-1 explains why models are not compared field by field)
+                                proj = []
                             rr.ob(f.relpath, f.qualname, norm(cmpn)[:70], "two IR nodes are equal only if their whole content is equal: "
                                   "merge_field_sets keeps the stored type without merging when the incoming one compares equal",
                                   VIOLATED if proj else DISCHARGED,
@@ -858,7 +889,7 @@ def rule_drop1(ctx: Ctx) -> RuleResult:
 
 def rule_val1(ctx: Ctx) -> RuleResult:
     """The value whose type is detected is the sample value itself, and detection uses the configured registry."""
-    rr = RuleResult("VAL-1", "types are detected on the sample values themselves, with the configured string-type registry", floor=4)
+    rr = RuleResult("VAL-1", "types are detected on the sample values themselves, with the configured string-type registry", floor=5)
     prog = ctx.prog
     det = prog.func(GEN, "MetadataGenerator._detect_type")
     for fname in ("MetadataGenerator._convert", "MetadataGenerator._detect_type"):
@@ -892,6 +923,17 @@ def rule_val1(ctx: Ctx) -> RuleResult:
             rr.ob(f.relpath, f.qualname, norm(n)[:70], "the value handed to type detection is an element of the sample, as "
                   "observed (no normalisation before detection)", DISCHARGED if ok else VIOLATED, "element of the sample" if ok else why,
                   n.lineno)
+    # the value parameter of _detect_type itself: re-bound only by the parser call of the detection loop
+    vparam = [a for a in det.params if a != "self"][0]
+    rr.instances += 1
+    rebinds = [d for d in walk_no_nested(det.node) if isinstance(d, (ast.Assign, ast.AugAssign, ast.AnnAssign)) and any(
+        isinstance(t, ast.Name) and t.id == vparam for t in (d.targets if isinstance(d, ast.Assign) else [d.target]))]
+    rebinds = [d for d in rebinds if not (isinstance(getattr(d, "value", None), ast.Call) and isinstance(d.value.func, ast.Attribute)
+                                          and d.value.func.attr == "to_internal_value")]
+    rr.ob(det.relpath, det.qualname, f"parameter `{vparam}`", "the value whose type is detected - and that becomes a Literal member - is the "
+          "sample value as observed (no normalisation before detection)", VIOLATED if rebinds else DISCHARGED,
+          f"`{norm(rebinds[0])[:50]}` rewrites the value: \" kg\" and \"kg\" become one literal, and a Literal lists a string that is "
+          f"in no sample" if rebinds else "never re-bound outside the parser call", (rebinds[0].lineno if rebinds else det.node.lineno))
     # REGUSE-1: inside the generator, only the configured registry is consulted
     cls = prog.cls(GEN, "MetadataGenerator")
     for ms in cls.methods.values():
@@ -1038,7 +1080,27 @@ def rule_elem1(ctx: Ctx) -> RuleResult:
                         break
         rr.ob(det.relpath, det.qualname, norm(site)[:90] if not isinstance(site, ast.For) else f"for {norm(tgt)} in {norm(it)}: ...",
               st, VIOLATED if problems else DISCHARGED, "; ".join(problems) if problems else "every element, unfiltered", c.lineno)
-    if n_sites < 2:
+    # an object that is a mapping (keys matched --dict-keys-regex, or the field is listed in --dict-keys-fields) is not handed
+    # to _convert: _convert treats keys as field names (and looks them up in dict_keys_fields)
+    flag = next((a for a in det.params if "convert" in a), None)
+    delegated = False
+    for c in walk_no_nested(det.node):
+        if isinstance(c, ast.Call) and norm(c.func) == "self._convert":
+            rr.instances += 1
+            under_flag = False
+            cur, par = c, mod.parents.get(c)
+            while par is not None and par is not det.node:
+                if isinstance(par, ast.If) and flag and norm(par.test) == flag and cur in par.body:
+                    under_flag = True
+                cur, par = par, mod.parents.get(par)
+            if not under_flag:
+                delegated = True
+            rr.ob(det.relpath, det.qualname, norm(c)[:70], "only an object that becomes a model has its keys treated as field names; the "
+                  "values of a mapping are detected one by one, whatever their keys are called", DISCHARGED if under_flag else VIOLATED,
+                  f"under `if {flag}`" if under_flag else
+                  f"`{norm(c)[:40]}` runs for an object that is a mapping: its keys are looked up in dict_keys_fields like field names, so a "
+                  f"mapping key that happens to be listed there turns the object under it into a mapping too", c.lineno)
+    if n_sites < 2 and not delegated:
         raise AnalysisError(f"ELEM-1: only {n_sites} element-wise detections found in _detect_type (list and mapping expected)")
     return rr
 
